@@ -131,6 +131,24 @@ def std_history(inst, pid, inp, extra=()):
     return [f"eng new {inst} {pid}"] + load_ops(inst, inp) + [f"eng run {inst}", f"eng dump {inst}"] + list(extra)
 
 
+def reuse_history(rng, p, inst, pid, inp, run2="run", tail=(), force_clear=None, force_sub=None):
+    """run(); REPLACE the row vector of one or two relations by a sub-list of the rows the first run left there (a cleared derived relation, retracted
+    input facts, ...); run() again on the same program value.  The second run is a run() over the facts then present, so its result is the least model of
+    those rows (every index is rebuilt from the relation vectors at the start of run()).  Returns (ops, second input)."""
+    db1 = eng.naive_model(p, inp)
+    inp2 = {r: sorted(db1.get(r, ())) for r in range(len(p["rels"]))}
+    cands = [r for r in inp2 if inp2[r]]
+    chosen = rng.shuffle(cands)[: rng.range(1, 2)] if cands else []
+    for f in (force_sub, force_clear):
+        if f is not None and f in cands and f not in chosen: chosen = [f] + chosen[:1]
+    edits = {}
+    for r in chosen:
+        keep = [] if (rng.chance(1, 3) or r == force_clear) else [t for t in rng.shuffle(inp2[r]) if rng.chance(1, 2)]
+        inp2[r] = keep; edits[r] = keep
+    ops = [f"eng new {inst} {pid}"] + load_ops(inst, inp) + [f"eng run {inst}", f"eng dump {inst}"] + load_ops(inst, edits) + [f"eng {run2} {inst}", f"eng dump {inst}"] + list(tail)
+    return ops, inp2
+
+
 def check_sets(p, dump, spec):
     if not dump.startswith("r0:"): return f"run/dump failed: {dump}"
     sets, mult = dump_sets(dump)
